@@ -60,6 +60,8 @@ def _pair(rng, vr=False, cheap=False):
     else:
         t = gen.spell(rng, trgb, gen.CSS_SPELLINGS + gen.API_ONLY_SPELLINGS)[0]
     b = gen.spell(rng, bg, gen.CSS_SPELLINGS + gen.API_ONLY_SPELLINGS)[0]
+    if rng.random() < 0.12:
+        b = gen.spell_alpha(rng, bg, rng.choice((0.1, 0.5, 0.9)))[0]  # translucent background (composited over white)
     if rng.random() < 0.06:
         t = rng.choice(gen.POISON_STR + gen.POISON_OBJ)
     return enc(t), enc(b), large
@@ -92,6 +94,11 @@ def _cli_op(rng):
     if rng.random() < 0.3:
         settings["default_bg"] = rng.choice(("black", "#222", "navy"))
     tree = {}
+    if rng.random() < 0.15:
+        # nothing to process: empty directory, only outputs of an earlier run, or no stylesheet at all
+        tree = rng.choice(({}, {"a_cm.css": ".a{color:#777}"}, {"notes.txt": "x"}, {"sub/x_cm.css": ".a{color:#777}", "readme.md": "#"}))
+        settings["default_bg"] = rng.choice(("black", "#222", "navy", "rgb(20, 30, 40)"))
+        return {"op": "cli", "tree": tree, "settings": settings, "order_key": rng.randrange(1 << 20)}
     for name in rng.sample(("a.css", "b.css", "sub/c.css"), rng.randint(1, 2)):
         feats = gen.draw_features(rng, ("vars", "var-shared", "var-fallback", "var-undefined", "nesting", "important", "keywords", "comments"), 0.35)
         txt = gen.render(gen.gen_sheet(rng, feats, settings, max_rules=3))
@@ -226,6 +233,7 @@ def run_cli_op(op):
     root = base.new_sandbox("c15cli")
     try:
         tdir = os.path.join(root, "tree")
+        os.makedirs(tdir, exist_ok=True)
         for name in sorted(op["tree"]):
             p = os.path.join(tdir, name)
             os.makedirs(os.path.dirname(p), exist_ok=True)
